@@ -340,7 +340,7 @@ accepted_values = st.recursive(leaf, _extend, max_leaves=14)
 
 #: small JSON-ish values for workflow programs (cheap, still typed)
 small_values = st.recursive(
-    st.one_of(_simple_leaf, st.binary(max_size=3), st.sampled_from([Decimal("1.50"), (1, "a"), uuid.UUID(int=7)])),
+    st.one_of(_simple_leaf, st.binary(max_size=3), st.sampled_from([Decimal("1.50"), Decimal("1.2E+3"), (1, "a"), uuid.UUID(int=7)])),
     lambda c: st.one_of(st.lists(c, max_size=3), st.lists(c, max_size=2).map(tuple), st.dictionaries(st.text(max_size=3), c, max_size=3)),
     max_leaves=5,
 )
